@@ -19,6 +19,9 @@ import (
 
 	"verifharness/lnmodel"
 
+	"github.com/btcsuite/btcd/chaincfg"
+	"github.com/lightningnetwork/lnd/zpay32"
+
 	"github.com/elnosh/gonuts/mint/lightning"
 )
 
@@ -249,6 +252,20 @@ func (f *Fake) ServeHTTP(rw http.ResponseWriter, req *http.Request) {
 	case "/v1/pay":
 		bolt11 := str("bolt11")
 		maxFeeMsat := num("maxfee")
+		if _, given := in["maxfee"]; !given {
+			// without maxfee Core Lightning falls back to its defaults: 0.5 % of the amount, and fees up to
+			// 5000 msat are always accepted (maxfeepercent / exemptfee)
+			amt := num("partial_msat")
+			if amt == 0 {
+				if inv, err := zpay32.Decode(bolt11, &chaincfg.SigNetParams); err == nil && inv.MilliSat != nil {
+					amt = uint64(*inv.MilliSat)
+				}
+			}
+			maxFeeMsat = amt / 200
+			if maxFeeMsat < 5000 {
+				maxFeeMsat = 5000
+			}
+		}
 		var st lightning.PaymentStatus
 		var err error
 		if _, partial := in["partial_msat"]; partial {
